@@ -251,7 +251,9 @@ if (jcol == BADPAN)
 #ifdef PROFILE
 	    TIC(t1);
 #endif
+	    SLU_MT_VERIF_EVENT(5, pnum, kcol, jcol, 1);
 	    await( &pxgstrf_shared->spin_locks[kcol] );
+	    SLU_MT_VERIF_EVENT(6, pnum, kcol, jcol, 1);
 
 #ifdef PROFILE
 	    TOC(t2, t1);
@@ -286,7 +288,9 @@ if (jcol == BADPAN)
 #ifdef PROFILE
 		TIC(t1);
 #endif
+		SLU_MT_VERIF_EVENT(5, pnum, kcol, jcol, 2);
 		await ( &pxgstrf_shared->spin_locks[kcol] );
+		SLU_MT_VERIF_EVENT(6, pnum, kcol, jcol, 2);
 
 #ifdef PROFILE
 		TOC(t2, t1);
@@ -312,6 +316,7 @@ if ( jcol==BADCOL )
 
 	/* Append the new segment into segrep[*]. After column_bmod(),
 	   copy_to_ucol() will use them. */
+	SLU_MT_VERIF_EVENT(7, pnum, fsupc, krep, jcol);
 	segrep[*nseg] = krep;
         ++(*nseg);
         
